@@ -2531,6 +2531,10 @@ class ProvDocument(ProvBundle):
                     "WARNING: not saving as location " + "is not a local file reference"
                 )
                 return
+            if scheme != "file":
+                # a plain file name, to be used as it is: characters that are
+                # URL syntax ('#', '?', ';', ':') belong to the name
+                path = location
             fd, name = tempfile.mkstemp()
             stream = os.fdopen(fd, "wb")
             serializer.serialize(stream, **args)
